@@ -3,6 +3,7 @@ CONSTANTS
   N = 5
   W = {1}
   Primes = {2, 3}
+INVARIANT ThCliques
 INVARIANT ThWellFormed
 INVARIANT ThStrict
 INVARIANT ThDefBetti
